@@ -106,7 +106,7 @@ Lemma mf_C06_macro_free_channels : forall (msep : bool) (src : list char),
 Proof.
   intros msep src H. pose proof (lex_is_reflex_macro_free msep src H) as G. cbv zeta in G.
   pose proof (reflex_shape src) as Sh.
-  destruct (reflex src) as [[T E] lit]. destruct G as (_ & _ & G3 & _). destruct Sh as [_ Hc].
+  destruct (reflex src) as [[T E] lit]. destruct G as (_ & _ & G3 & _). destruct Sh as (_ & Hc & _).
   revert G3. generalize (b_toks (lr_buffer (lex (mkCfg false msep) src))) as toks. clear -Hc.
   induction Hc as [|u us Hu _ IH]; intros [|t ts] E0; cbn [map] in E0; try discriminate; constructor.
   - injection E0 as Et Ec _ _ _. unfold chan_ok in Hu. rewrite Et, Ec. exact Hu.
@@ -120,7 +120,7 @@ Lemma mf_C10_macro_free_groups : forall (msep : bool) (src : list char),
 Proof.
   intros msep src H. pose proof (lex_is_reflex_macro_free msep src H) as G. cbv zeta in G.
   pose proof (reflex_shape src) as Sh.
-  destruct (reflex src) as [[T E] lit]. destruct G as (_ & _ & G3 & _). destruct Sh as [Hg _].
+  destruct (reflex src) as [[T E] lit]. destruct G as (_ & _ & G3 & _). destruct Sh as (Hg & _ & _).
   assert (K : map t_type (b_toks (lr_buffer (lex (mkCfg false msep) src))) = map rt_type T).
   { pose proof (f_equal (map (fun x : TokenType * TokenChannel * N * payload => fst (fst (fst x)))) G3) as K. rewrite !map_map in K. exact K. }
   rewrite K. exact Hg.
@@ -206,4 +206,24 @@ Proof.
   induction Hu as [|e es He _ IH]; intros [|x L] K; cbn [map] in K; try discriminate; constructor.
   - injection K as K1 _. rewrite K1. exact He.
   - injection K as _ K2. apply IH. exact K2.
+Qed.
+
+(** C18: [C18_macro_free_no_effect] *)
+Lemma mf_C18_macro_free_no_effect : forall (src : list char), macro_free (body_of src) = true ->
+  let r0 := lex (mkCfg false false) src in
+  let r1 := lex (mkCfg false true) src in
+  map tv0 (b_toks (lr_buffer r1)) = map tv0 (b_toks (lr_buffer r0)) /\
+  map ev0 (lr_errors r1) = map ev0 (lr_errors r0) /\ b_lit (lr_buffer r1) = b_lit (lr_buffer r0) /\
+  Forall (fun t => t_type t <> T_MacroSep) (b_toks (lr_buffer r1)).
+Proof.
+  intros src H. cbv zeta.
+  pose proof (lex_is_reflex_macro_free false src H) as G0. pose proof (lex_is_reflex_macro_free true src H) as G1. cbv zeta in G0, G1.
+  pose proof (reflex_shape src) as Sh.
+  destruct (reflex src) as [[T E] lit]. destruct G0 as (_ & _ & A3 & A4 & A5 & _). destruct G1 as (_ & _ & B3 & B4 & B5 & _).
+  split; [congruence|]. split; [congruence|]. split; [congruence|].
+  destruct Sh as (_ & _ & Hn).
+  revert B3. generalize (b_toks (lr_buffer (lex (mkCfg false true) src))) as toks. clear -Hn.
+  induction Hn as [|u us Hu _ IH]; intros [|t ts] E0; cbn [map] in E0; try discriminate; constructor.
+  - injection E0 as Et _ _ _ _. rewrite Et. exact Hu.
+  - injection E0 as _ _ _ _ E2. apply IH. exact E2.
 Qed.
